@@ -32,6 +32,8 @@ type AUser struct {
 	Badge     *ABadge   `gorm:"polymorphic:Owner"`
 	Nick      string    // not a key: referenced by AGift.UserNick (references: on a non-primary column; duplicates and "" occur)
 	Gifts     []AGift   `gorm:"foreignKey:UserNick;references:Nick"`
+	Memos     []AMemo   `gorm:"polymorphic:Owner;foreignKey:Nick"` // polymorphic id column holds the owner's Nick, not its ID
+	Stamp     *AStamp   `gorm:"polymorphic:Owner;foreignKey:Nick"`
 	Extra     AExtra    `gorm:"embedded;embeddedPrefix:extra_"`
 }
 
@@ -40,6 +42,21 @@ type AUser struct {
 type AExtra struct {
 	MentorID *uint
 	Mentor   *AUser `gorm:"foreignKey:MentorID"`
+}
+
+type AMemo struct {
+	ID        uint `gorm:"primaryKey;autoIncrement:false"`
+	Tag       int
+	OwnerID   *string
+	OwnerType string
+}
+
+type AStamp struct {
+	ID        uint `gorm:"primaryKey;autoIncrement:false"`
+	Tag       int
+	OwnerID   *string
+	OwnerType string
+	DeletedAt gorm.DeletedAt
 }
 
 type AGift struct {
@@ -390,8 +407,9 @@ type fk struct {
 // polyRef describes a polymorphic owner reference for data generation.
 type polyRef struct {
 	idField, typeField string
-	owners             []string          // model names; the type value is the owner's table name ...
-	values             map[string]string // ... unless the owner's relation carries polymorphicValue
+	owners             []string            // model names; the type value is the owner's table name ...
+	values             map[string]string   // ... unless the owner's relation carries polymorphicValue
+	keys               map[string][]string // owner fields stored in the id column (default: the owner's primary key; `polymorphic` + `foreignKey:`)
 }
 
 type model struct {
@@ -515,6 +533,19 @@ func famA() *family {
 		rels: []*rel{{name: "Giver", kind: belongsTo, target: "AUser", own: []string{"UserNick"}, tgt: []string{"Nick"}}}}
 	f.byName[gift.name] = gift
 	f.models = append(f.models, gift)
+	nick := []string{"Nick"}
+	u.rels = append(u.rels,
+		&rel{name: "Memos", kind: polyMany, target: "AMemo", own: nick, tgt: []string{"OwnerID"}, polyField: "OwnerType", polyValue: "a_users"},
+		&rel{name: "Stamp", kind: polyOne, target: "AStamp", own: nick, tgt: []string{"OwnerID"}, polyField: "OwnerType", polyValue: "a_users"})
+	for _, m := range []*model{
+		{name: "AMemo", table: "a_memos", typ: reflect.TypeOf(AMemo{}), pk: []string{"ID"}, maxRows: 6,
+			poly: &polyRef{idField: "OwnerID", typeField: "OwnerType", owners: []string{"AUser"}, keys: map[string][]string{"AUser": nick}}},
+		{name: "AStamp", table: "a_stamps", typ: reflect.TypeOf(AStamp{}), pk: []string{"ID"}, soft: true, maxRows: 4,
+			poly: &polyRef{idField: "OwnerID", typeField: "OwnerType", owners: []string{"AUser"}, keys: map[string][]string{"AUser": nick}}},
+	} {
+		f.byName[m.name] = m
+		f.models = append(f.models, m)
+	}
 	f.nested["AUser"] = append(f.nested["AUser"], "Gifts.Giver", "Mentor.Gifts", "Extra.Mentor.Pets", "Team.Extra.Mentor")
 	return f
 }
